@@ -198,7 +198,8 @@ func Eval(g *gspec.Grammar, input []byte, opt Options) (res *Result) {
 	it.pos, it.valid = Positions(input)
 	it.budget = opt.StepBudget
 	if it.budget == 0 {
-		it.budget = 200000
+		// (long inputs - big rules, the Loop entry - get a budget that grows with them)
+		it.budget = 200000 + 400*len(input)
 	}
 	it.st.RollbackKinds = map[string]int{}
 	it.st.LRCalls = map[string]int{}
